@@ -56,8 +56,16 @@ Theorem C29_path_enumeration_terminates :
       dfs f1 (succs E) w acc i = dfs f2 (succs E) w acc i.
 Proof. exact path_enumeration_fuel. Qed.
 
-(** The instance checker (longest chain computed from [linkb], i.e. from the definition of a
-    chain) accepts only the true maximum ... *)
+(** Auxiliary characterisation by dynamic programming over positions: the largest count over
+    chains ending at each position, computed left to right from the link predicate, has the same
+    maximum as the enumeration of all chains. *)
+Theorem C29_dp_characterisation :
+  forall (prog : list instr) (k : nat),
+    IsMaxChain prog k (chain_max_dp prog k) /\ chain_max_dp prog k = chain_max prog k.
+Proof. intros. split; [apply chain_max_dp_spec | apply chain_max_dp_eq]. Qed.
+
+(** The instance checker (longest chain by that DP, i.e. computed from the definition of a chain)
+    accepts only the true maximum ... *)
 Theorem C29_checker_sound :
   forall (prog : list instr) (k d : nat),
     chk_depth prog k d = true -> IsMaxChain prog k d.
@@ -75,11 +83,11 @@ Example C29_nonvacuous :
                mkI KMeasure [1%N]; mkI KGate [0%N; 1%N; 2%N]; mkI KClassical []] in
   build prog = inr [(0, 1); (1, 3); (3, 4); (1, 5); (4, 5); (2, 5)]
   /\ map (gate_depth prog) [0; 1; 2; 3; 4] = [Some 4; Some 4; Some 3; Some 1; Some 0]
-  /\ chk_depth prog 2 3 = true
+  /\ chk_depth prog 2 3 = true /\ chain_max_dp prog 1 = 4
   /\ chain prog [0; 1; 3; 4; 5].
 Proof.
   cbv zeta. split; [vm_compute; reflexivity|]. split; [vm_compute; reflexivity|].
-  split; [vm_compute; reflexivity|]. unfold chain.
+  split; [vm_compute; reflexivity|]. split; [vm_compute; reflexivity|]. unfold chain.
   repeat (apply rp_cons; [apply linkb_spec; vm_compute; reflexivity|]).
   apply rp_one. cbn [length]. repeat constructor.
 Qed.
